@@ -9,7 +9,16 @@ From Conductor Require Import Model.Loader Model.Planner Model.Exec Model.RunCas
 From Conductor Require Import Proofs.WfPlanDec.
 Import ListNotations.
 
-(* the final state of every operation is determined by the dependency graph and the oracle:
+(* Scope notes.  (1) "The oracle fails an operation" = its launch raises a ConductorError, or its process ends with a
+   non-zero status; since D31 finish_execution can also fail an execution whose status is 0 (the record files cannot
+   be written): the correspondence check folds that case into the status oracle, the model has no third cause.
+   (2) Every operation the planner builds has a main task, so the model counts and reports every operation; the
+   `main_task is None` filters of the executor are never exercised.  (3) With --stop-early the run ends at the first
+   failure: operations that were never dequeued get NO outcome and are not listed as skipped, and a task that ignores
+   SIGTERM may outlive the run -- C03_stop_early* say what does hold then; the classification theorems are for runs that
+   are not cut short (stopped s = false).
+
+   the final state of every operation is determined by the dependency graph and the oracle:
    SKIPPED iff some dependency did not succeed, iff it reaches a FAILED operation, and then it was
    never started; FAILED iff all dependencies succeeded and the oracle fails it (launch error or
    non-zero return code, signal numbers included); SUCCEEDED iff all dependencies succeeded and
